@@ -14,10 +14,11 @@ Record conts := {
   k_batch : list (option cbatch);     (* ColumnBatchBuilder slots *)
   k_cmd : list cmdbuf;                (* CommandBuffer slots *)
   k_next : N;                         (* serial of the most recent clone *)
+  k_spawns : list N;                  (* per buffer: spawn commands recorded since the last run/clear/drop (table padding) *)
 }.
 Definition conts_new : conts :=
   {| k_eb := repeat common_new 4; k_ebc := repeat common_new 4; k_built := repeat None 4;
-     k_batch := repeat None 4; k_cmd := repeat cmdbuf_new 2; k_next := 1073741824 |}.
+     k_batch := repeat None 4; k_cmd := repeat cmdbuf_new 2; k_next := 1073741824; k_spawns := [0; 0] |}.
 
 Record est := { e_u : universe; e_ws : list wslot; e_handles : list entity; e_prep : list (N * prepared); e_k : conts;
                 e_guards : list guard; e_cells : list cells }.
@@ -232,17 +233,21 @@ Definition vals_flat (l : list (tid * val)) : list N := concat (map (fun p => [s
 Definition set_k (st : est) (k : conts) : est :=
   {| e_u := e_u st; e_ws := e_ws st; e_handles := e_handles st; e_prep := e_prep st; e_k := k; e_guards := e_guards st; e_cells := e_cells st |}.
 Definition k_with_eb (k : conts) (l : list common) : conts :=
-  {| k_eb := l; k_ebc := k_ebc k; k_built := k_built k; k_batch := k_batch k; k_cmd := k_cmd k; k_next := k_next k |}.
+  {| k_eb := l; k_ebc := k_ebc k; k_built := k_built k; k_batch := k_batch k; k_cmd := k_cmd k; k_next := k_next k; k_spawns := k_spawns k |}.
 Definition k_with_ebc (k : conts) (l : list common) : conts :=
-  {| k_eb := k_eb k; k_ebc := l; k_built := k_built k; k_batch := k_batch k; k_cmd := k_cmd k; k_next := k_next k |}.
+  {| k_eb := k_eb k; k_ebc := l; k_built := k_built k; k_batch := k_batch k; k_cmd := k_cmd k; k_next := k_next k; k_spawns := k_spawns k |}.
 Definition k_with_built (k : conts) (l : list (option common)) : conts :=
-  {| k_eb := k_eb k; k_ebc := k_ebc k; k_built := l; k_batch := k_batch k; k_cmd := k_cmd k; k_next := k_next k |}.
+  {| k_eb := k_eb k; k_ebc := k_ebc k; k_built := l; k_batch := k_batch k; k_cmd := k_cmd k; k_next := k_next k; k_spawns := k_spawns k |}.
 Definition k_with_batch (k : conts) (l : list (option cbatch)) : conts :=
-  {| k_eb := k_eb k; k_ebc := k_ebc k; k_built := k_built k; k_batch := l; k_cmd := k_cmd k; k_next := k_next k |}.
+  {| k_eb := k_eb k; k_ebc := k_ebc k; k_built := k_built k; k_batch := l; k_cmd := k_cmd k; k_next := k_next k; k_spawns := k_spawns k |}.
 Definition k_with_cmd (k : conts) (l : list cmdbuf) : conts :=
-  {| k_eb := k_eb k; k_ebc := k_ebc k; k_built := k_built k; k_batch := k_batch k; k_cmd := l; k_next := k_next k |}.
+  {| k_eb := k_eb k; k_ebc := k_ebc k; k_built := k_built k; k_batch := k_batch k; k_cmd := l; k_next := k_next k; k_spawns := k_spawns k |}.
 Definition k_with_next (k : conts) (n : N) : conts :=
-  {| k_eb := k_eb k; k_ebc := k_ebc k; k_built := k_built k; k_batch := k_batch k; k_cmd := k_cmd k; k_next := n |}.
+  {| k_eb := k_eb k; k_ebc := k_ebc k; k_built := k_built k; k_batch := k_batch k; k_cmd := k_cmd k; k_next := n; k_spawns := k_spawns k |}.
+
+Definition k_with_spawns (k : conts) (l : list N) : conts :=
+  {| k_eb := k_eb k; k_ebc := k_ebc k; k_built := k_built k; k_batch := k_batch k; k_cmd := k_cmd k; k_next := k_next k; k_spawns := l |}.
+Definition spawns_of (k : conts) (cb : N) : N := match nthN (k_spawns k) cb with Some n => n | None => 0 end.
 
 Definition nth_common (l : list common) (i : N) : common := match nthN l i with Some c => c | None => common_new end.
 Definition enc_events (ev : list aevent) : list N := [].   (* allocator events are compared by the layout engine *)
@@ -391,7 +396,7 @@ Definition exec_cont (st : est) (opc : N) (l : list N) : est * list N * list N :
       let '(b, rest) := dec_bundle u r1 in
       match nthN (k_cmd k) cb with
       | Some c => let '(c', _) := cm_record u c None b in
-                  (set_k st (k_with_cmd k (updN (k_cmd k) cb c')), rest, out_ok u [] [])
+                  (set_k st (k_with_spawns (k_with_cmd k (updN (k_cmd k) cb c')) (updN (k_spawns k) cb (spawns_of k cb + 1))), rest, out_ok u [] [])
       | None => (st, rest, [8])
       end
   | 81, cb :: r1 =>
@@ -418,9 +423,9 @@ Definition exec_cont (st : est) (opc : N) (l : list N) : est * list N * list N :
   | 84, cb :: wi :: rest =>
       match get_w st wi, nthN (k_cmd k) cb with
       | Some w, Some c =>
-          let n := spawn_count c in
+          let n := spawns_of k cb in
           let '(w', c', spawned, d, p) := cm_run_on u w c in
-          let st1 := set_k st (k_with_cmd k (updN (k_cmd k) cb c')) in
+          let st1 := set_k st (k_with_spawns (k_with_cmd k (updN (k_cmd k) cb c')) (updN (k_spawns k) cb 0)) in
           (* run_on does not report the handles it spawned: the harness recovers them as the entities
              that exist afterwards and did not exist before, in handle order *)
           let spawned := sort_by enc_entity (filter (fun h => match get_mut (w_ents w') h with Some _ => true | None => false end) spawned) in
@@ -434,12 +439,12 @@ Definition exec_cont (st : est) (opc : N) (l : list N) : est * list N * list N :
   | 85, cb :: rest =>
       match nthN (k_cmd k) cb with
       | Some c => let '(c', d) := cm_clear c in
-                  (set_k st (k_with_cmd k (updN (k_cmd k) cb c')), rest, out_ok u [] d)
+                  (set_k st (k_with_spawns (k_with_cmd k (updN (k_cmd k) cb c')) (updN (k_spawns k) cb 0)), rest, out_ok u [] d)
       | None => (st, rest, [8])
       end
   | 86, cb :: rest =>
       match nthN (k_cmd k) cb with
-      | Some c => (set_k st (k_with_cmd k (updN (k_cmd k) cb cmdbuf_new)), rest, out_ok u [] (cm_live_values c))
+      | Some c => (set_k st (k_with_spawns (k_with_cmd k (updN (k_cmd k) cb cmdbuf_new)) (updN (k_spawns k) cb 0)), rest, out_ok u [] (cm_live_values c))
       | None => (st, rest, [8])
       end
   | _, _ => (st, [], [])
